@@ -45,4 +45,8 @@ def run(pid, tier, replay=None):
     with open(files[0]) as fh:
         ck.sample(json.loads(fh.readline()))
     ck.cov["rule"] = "one case = one (degree, duration, boundary data with non-zero derivatives) or one (coefficient vector of length 0..5(6), evaluation point); every case is non-trivial"
+    # the C++ member functions of the same structures must behave like the C functions (Facade.tla)
+    from checks import facade
+    facade.part(ck, sc, ['trajpoly3', 'trajpoly5', 'trajpoly7'])
+    ck.assumptions.append('C++ member functions of a_trajpoly3/5/7: each compared with the C function it stands for on identically prepared objects with pairwise distinct arguments (object bytes, result, written arrays)')
     return ck.finish(exhaustive=not ck.violations)
